@@ -187,6 +187,16 @@ fn corruptions(w: &World, p: &mut Prng, key: &mut u32, parts: &[Built], agg: &Tr
 		};
 		v.push(("offset_changed", t));
 	}
+	// 3b. offset that is not a scalar at all (at / above the group order): nothing such an "offset" could balance
+	for (name, bytes) in [("offset_all_ff", [0xffu8; 32]), ("offset_group_order", GROUP_ORDER), ("offset_group_order_plus_one", {
+		let mut b = GROUP_ORDER;
+		b[31] += 1;
+		b
+	})] {
+		let mut t = agg.clone();
+		t.offset = BlindingFactor::from_slice(&bytes);
+		v.push((name, t));
+	}
 	// 4. kernels: dropped / duplicated / foreign
 	if agg.kernels().len() >= 2 {
 		let mut t = agg.clone();
@@ -253,6 +263,12 @@ fn corruptions(w: &World, p: &mut Prng, key: &mut u32, parts: &[Built], agg: &Tr
 	}
 	v
 }
+
+/// Order of the secp256k1 group: the smallest 32-byte value that is not a scalar.
+const GROUP_ORDER: [u8; 32] = [
+	0xff, 0xff, 0xff, 0xff, 0xff, 0xff, 0xff, 0xff, 0xff, 0xff, 0xff, 0xff, 0xff, 0xff, 0xff, 0xfe, 0xba, 0xae, 0xdc, 0xe6, 0xaf, 0x48, 0xa0, 0x3b,
+	0xbf, 0xd2, 0x5e, 0x8c, 0xd0, 0x36, 0x41, 0x41,
+];
 
 /// Block corruptions (name, block, prev header used for validate).
 fn block_cases(w: &World, p: &mut Prng, key: &mut u32, prev: &grin_core::core::BlockHeader, txs: &[&Built]) -> (Block, Vec<(&'static str, Block)>) {
@@ -411,11 +427,16 @@ fn tx_part(run: &Run, shard: usize, n: usize, n_shapes: u64, deadline: f64) {
 		let n_kern = 1 + p.usize_below(3);
 		let mut parts = vec![];
 		let mut shape = vec![];
+		// every fifth shape: the whole blinding sum in the kernels, total offset zero
+		let all_zero = s % 5 == 1;
+		if all_zero {
+			run.count("tx_shapes_with_a_zero_total_offset", 1);
+		}
 		for k in 0..n_kern {
 			let n_in = 1 + p.usize_below(if n_kern == 1 { 4 } else { 2 });
 			let n_out = 1 + p.usize_below(if n_kern == 1 { 5 } else { 2 });
 			let variant = p.below(3);
-			let zero_offset = p.chance(1, 4);
+			let zero_offset = p.chance(1, 4) || all_zero;
 			shape.push(format!("{}i{}o{}{}", n_in, n_out, ["P", "H", "N"][variant as usize], if zero_offset { "z" } else { "" }));
 			let _ = k;
 			parts.push(build_tx(&w, &mut p, &mut key, n_in, n_out, variant, zero_offset));
@@ -572,8 +593,66 @@ fn fee_boundary_cases(run: &Run, w: &World, p: &mut Prng, key: &mut u32, gen_hea
 /// Chain part: histories with forks/reorgs; after each accepted block compare the
 /// stored running sums with sums recomputed from the replayed state, evaluate the
 /// full-state equation, and deliver value-creating blocks that must be refused.
+/// A history whose cumulative kernel offset is zero (coinbase-only blocks, then a transaction that keeps its whole
+/// blinding sum in the kernel): blocks that are right in every respect except that their header commits to a total
+/// offset which is not a scalar at all must be refused by the pipeline; the untouched block is then accepted.
+/// (`Block::validate` alone derives the block's own offset leniently and cannot see this; acceptance is the node's.)
+fn zero_offset_history(run: &Run, sc: &Scratch, shard: usize) {
+	let mut h = vcommon::forktree::Hist::new(run.seed ^ 0x0FF5_E7 ^ ((shard as u64) << 32), false);
+	let dir = sc.sub(&format!("zero_offset{}", shard));
+	let chain = open_chain(&dir, &h.genesis).expect("open");
+	let opts: Options = h.opts();
+	let mut tip = h.genesis.hash();
+	for height in 1..=6u64 {
+		let mut txs = vec![];
+		if height >= 5 {
+			if let Some(c) = h.spendable(&tip).first().cloned() {
+				let ko = h.fresh_key();
+				let fee = 1_000_000;
+				let w = h.world.clone();
+				let mut pf = h.prng.fork(11);
+				txs.push(w.tx_opts(&mut pf, &[c.clone()], &[(c.value - fee, ko)], KernelFeatures::Plain { fee: fee_fields(fee) }, true).0);
+			}
+		}
+		let gb = vcommon::scenarios::mk_block_txs(&mut h, &tip, &txs, 10, "honest");
+		if gb.verdict.is_err() || gb.block.header.total_kernel_offset != BlindingFactor::zero() {
+			run.inconclusive("zero-offset history: the harness could not build a valid block with a zero cumulative offset");
+			return;
+		}
+		if height >= 3 {
+			for (name, bytes) in [("all_ff", [0xffu8; 32]), ("group_order", GROUP_ORDER)] {
+				let mut b = gb.block.clone();
+				b.header.total_kernel_offset = BlindingFactor::from_slice(&bytes);
+				let r = chain.process_block(b, opts);
+				run.eval(&format!("chain;header_total_offset_not_a_scalar;{};txs={}", name, txs.len()), true);
+				run.count("chain_header_total_offset_not_a_scalar.delivered", 1);
+				if !txs.is_empty() {
+					run.count("chain_header_total_offset_not_a_scalar.delivered_with_a_transaction", 1);
+				}
+				if let Ok(t) = r {
+					run.violation(
+						&format!("C01;chain;forged_block_accepted;header_total_offset_{}", name),
+						&format!("block at height {} whose header commits to the total kernel offset {} (not a scalar) was accepted: {:?}", height, name, t.map(|t| t.height)),
+						json!({"case": "zero_offset_history", "height": height, "offset": name}),
+					);
+					return;
+				}
+			}
+		}
+		match chain.process_block(gb.block.clone(), opts) {
+			Ok(Some(_)) => run.count("chain_header_total_offset_not_a_scalar.untouched_block_accepted_afterwards", 1),
+			other => {
+				run.inconclusive(&format!("zero-offset history: honest block at height {} not accepted as head: {:?}", height, other.map(|t| t.map(|t| t.height)).map_err(|e| format!("{:?}", e))));
+				return;
+			}
+		}
+		tip = gb.hash;
+	}
+}
+
 fn chain_part(run: &Run, shard: usize, n: usize, n_hist: u64, deadline: f64) {
 	let sc = Scratch::new("c01");
+	zero_offset_history(run, &sc, shard);
 	for i in 0..n_hist {
 		if i as usize % n != shard {
 			continue;
@@ -1189,9 +1268,10 @@ fn main() {
 		1001,
 	);
 	run.require("tx_valid_checked", run.counter("tx_valid_checked"), run.tier.pick(60, 600));
+	run.require("transaction shapes whose total offset is zero", run.counter("tx_shapes_with_a_zero_total_offset"), run.tier.pick(12, 120));
 	for op in [
 		"output_amount_plus", "output_amount_minus", "fee_field_changed", "offset_changed", "kernel_duplicated", "kernel_foreign",
-		"input_replaced", "output_flagged_coinbase", "kernel_flagged_coinbase",
+		"input_replaced", "output_flagged_coinbase", "kernel_flagged_coinbase", "offset_all_ff", "offset_group_order", "offset_group_order_plus_one",
 	] {
 		run.require(&format!("tx_corruption.{}", op), run.counter(&format!("tx_corruption.{}", op)), run.tier.pick(40, 400));
 	}
@@ -1206,6 +1286,21 @@ fn main() {
 		run.require(&format!("block_corruption.{}", op), run.counter(&format!("block_corruption.{}", op)), run.tier.pick(20, 200));
 	}
 	run.require("chain_blocks_accepted", run.counter("chain_blocks_accepted"), run.tier.pick(100, 1000));
+	run.require(
+		"blocks whose header commits to a total offset that is not a scalar, delivered on a zero-offset history",
+		run.counter("chain_header_total_offset_not_a_scalar.delivered"),
+		8,
+	);
+	run.require(
+		"... of which with a transaction",
+		run.counter("chain_header_total_offset_not_a_scalar.delivered_with_a_transaction"),
+		2,
+	);
+	run.require(
+		"... and the untouched block accepted afterwards",
+		run.counter("chain_header_total_offset_not_a_scalar.untouched_block_accepted_afterwards"),
+		4,
+	);
 	run.require("chain_full_state_equations_checked", run.counter("chain_full_state_equations_checked"), run.tier.pick(100, 1000));
 	for k in ["fees_sum_above_2^40_really_paid", "fees_sum_above_2^40_declared_but_not_paid"] {
 		run.require(&format!("tx_fee_boundary.{}", k), run.counter(&format!("tx_fee_boundary.{}", k)), run.tier.pick(20, 200));
